@@ -155,6 +155,21 @@ def generate(rng, tier):
         n = rng.randrange(0, 160)
         t = ''.join(rng.choice(alpha) for _ in range(n))
         yield dec_case(rng.choice(MODES), spec_pack(spec.encode(t)))
+    # decoder history: a decode after a refused / lenient decode of octets whose last septet is the escape code
+    for _ in range(2000 if thorough else 300):
+        n = rng.randrange(1, 30)
+        t = ''.join(rng.choice(alpha) for _ in range(n))
+        for pm in rng.choice((('strict',), ('replace',), ('strict', 'ignore'))):
+            for bad in (spec_pack([0x41, spec.ESC]), spec_pack([spec.ESC]), spec_pack([0x41] * 7 + [spec.ESC])):
+                try:
+                    codec().decode(bad, pm)
+                except Exception:      # noqa
+                    pass
+        c = dec_case(rng.choice(MODES), spec_pack(spec.encode(t)))
+        c.sig = ('hist-dec',) + tuple(c.sig[1:])
+        if c.fail:
+            c.fail = 'after decodes of octets ending in the escape code: ' + c.fail
+        yield c
     # history independence
     for _ in range(3000 if thorough else 500):
         n = rng.randrange(1, 40)
